@@ -50,7 +50,9 @@ func (h *Handler) remove(id string) {
 	h.trackedM.Lock()
 	defer h.trackedM.Unlock()
 	if iter, ok := h.tracked[id]; ok {
-		close(iter.msgC)
+		// Do not close msgC: the session's handler may be about to send on it
+		// (it does not hold the lock while it waits for the iterator).
+		close(iter.done)
 		delete(h.tracked, id)
 	}
 }
@@ -77,9 +79,22 @@ func (h *Handler) HandleMessage(msg stanza.Message, r xmlstream.TokenReadEncoder
 			break
 		}
 	}
+	// The lock is not held while the message is handed to the iterator: Close
+	// (or the end of the query) must be able to take it while we wait for the
+	// iterator's user, who may never ask for another message.
 	h.trackedM.Lock()
-	defer h.trackedM.Unlock()
 	iter, ok := h.tracked[queryID]
+	h.trackedM.Unlock()
+	if ok {
+		select {
+		case iter.msgC <- xmlstream.MultiReader(xmlstream.Token(msgTok), xmlstream.Token(tok), r):
+			return nil
+		case <-iter.done:
+			// The query ended while we were waiting: the message belongs to
+			// nobody any more, treat it like one of an untracked query.
+			ok = false
+		}
+	}
 	if !ok {
 		if h.inner != nil {
 			return h.inner.HandleMessage(msg, struct {
@@ -92,8 +107,6 @@ func (h *Handler) HandleMessage(msg stanza.Message, r xmlstream.TokenReadEncoder
 		}
 		return nil
 	}
-
-	iter.msgC <- xmlstream.MultiReader(xmlstream.Token(msgTok), xmlstream.Token(tok), r)
 	return nil
 }
 
@@ -123,6 +136,7 @@ func (h *Handler) FetchIQ(ctx context.Context, filter Query, iq stanza.IQ, s *xm
 	msgC := make(chan xml.TokenReader)
 	iter := &Iter{
 		msgC: msgC,
+		done: make(chan struct{}),
 		h:    h,
 		id:   filter.ID,
 	}
